@@ -877,9 +877,12 @@ func (c *FCtx) havocCounters(st *State, eff *Effects) {
 	var calls []string
 	for k := range eff.Locks {
 		if isCounterKey(k) {
+			prev := c.heapGet(st, k, SArr(SInt, SInt))
 			st.heap[k] = c.freshVar(k, SArr(SInt, SInt))
 			if strings.HasPrefix(k, "G$calls.") {
 				calls = append(calls, k)
+				// call counts only grow
+				st.assume(IGe(Select(st.heap[k], IntC(0)), Select(prev, IntC(0))))
 			}
 		}
 	}
